@@ -74,6 +74,10 @@ def binop(I, op, a, b, inplace=False):
             return _NATIVE_BIN[t](a, b)
         except NATIVE_EXC as e:
             reraise_native(I, e)
+    if t is ast.Add and (isinstance(a, GList) or isinstance(b, GList)) and isinstance(a, (list, GList)) and isinstance(b, (list, GList)):
+        ia = a.items if isinstance(a, GList) else [(True, x) for x in a]
+        ib = b.items if isinstance(b, GList) else [(True, x) for x in b]
+        return GList(ia + ib)
     # sequences holding symbolic members
     if t is ast.Add and isinstance(a, list) and isinstance(b, list):
         return a + b
@@ -571,6 +575,8 @@ def str_format(I, s, args, kwargs):
 
 # ======================================================================= native getattr
 def native_getattr(I, obj, name):
+    if isinstance(obj, I.TypeObj) and obj.name == "dict" and name == "fromkeys":
+        return NativeFn("dict.fromkeys", dict_fromkeys)
     if isinstance(obj, Opaque):
         return Opaque(obj.name + "." + name)
     if isinstance(obj, SymInt) and name in ("real",):
@@ -735,6 +741,12 @@ def m_bytes_join(I, obj, args, kw):
 
 
 def m_str_join(I, obj, args, kw):
+    if isinstance(args[0], GList):
+        # which elements are present is symbolic: the text is an opaque rendering
+        for g, x in args[0].items:
+            if not isinstance(x, (str, SymText, SymStr)):
+                I.raise_("TypeError", "sequence item: expected str instance, %s found" % _tn(x))
+        return SymText(args[0], "join")
     items = I.iterate_concrete(args[0])
     for x in items:
         if not isinstance(x, (str, SymText, SymStr)):
@@ -1397,6 +1409,93 @@ class SymList(Sym):
         for j in range(len(b.extra)):
             conds.append(I.py_eq(a.extra[d + j], b.extra[j]))
         return b_and(*conds)
+
+
+class GList(Sym):
+    """guarded list: element i is present iff its guard holds (order preserved).  Produced by a
+    comprehension whose filter is symbolic, instead of forking 2^n ways."""
+    is_listlike = True
+
+    def __init__(self, items):
+        self.items = list(items)  # (guard: True | SymBool, value)
+
+    def sym_len(self, I):
+        n = 0
+        for g, _ in self.items:
+            n = int_add(n, 1 if g is True else mk_int(zi(g), 1))
+        return n
+
+    def sym_iter(self, I):
+        out = []
+        for g, v in self.items:
+            if g is True or I.decide(g, "guarded-element"):
+                out.append(v)
+        return out
+
+    def to_list(self, I):
+        return self
+
+    def truth(self, I):
+        return I.truth(b_or(*[g for g, _ in self.items])) if self.items else False
+
+    def sym_method(self, I, name, args, kw):
+        return call_native_method(I, self.sym_iter(I), name, args, kw)
+
+
+class GDict(Sym):
+    """guarded dict with concrete keys: key present iff its guard holds"""
+
+    def __init__(self):
+        self.entries = {}  # key -> (guard, value)
+
+    def put(self, k, g, v):
+        if k in self.entries:
+            g0, v0 = self.entries[k]
+            # first occurrence wins (dict.fromkeys / dict comprehension keep the first position);
+            # value: later assignment overrides when present -- only used with identical values
+            self.entries[k] = (b_or(g0, g), v0 if v0 is v or v is None else v)
+        else:
+            self.entries[k] = (g, v)
+
+    def to_list(self, I):
+        return GList([(g, k) for k, (g, v) in self.entries.items()])
+
+    def sym_iter(self, I):
+        return self.to_list(I).sym_iter(I)
+
+    def sym_len(self, I):
+        return self.to_list(I).sym_len(I)
+
+    def sym_method(self, I, name, args, kw):
+        if name == "items":
+            return GList([(g, (k, v)) for k, (g, v) in self.entries.items()])
+        if name == "values":
+            return GList([(g, v) for k, (g, v) in self.entries.items()])
+        if name == "keys":
+            return self.to_list(I)
+        raise Unsupported("dict.%s on a guarded dict" % name)
+
+    def sym_getitem(self, I, k):
+        if k in self.entries:
+            g, v = self.entries[k]
+            if g is True or I.decide(g, "guarded-key"):
+                return v
+        I.raise_("KeyError", k)
+
+
+def dict_fromkeys(I, args, kw):
+    src = args[0]
+    val = args[1] if len(args) > 1 else None
+    if isinstance(src, GList):
+        d = GDict()
+        for g, k in src.items:
+            if isinstance(k, Sym):
+                raise Unsupported("guarded dict with symbolic key")
+            d.put(k, g, val)
+        if all(g is True for g, _ in d.entries.values()):
+            return {k: v for k, (g, v) in d.entries.items()}
+        return d
+    return dict.fromkeys(I.iterate_concrete(src), val)
 
 
 class SymRange(Sym):
